@@ -9,6 +9,7 @@ from ..util import KIND, MODEL_NAMES
 
 PROPERTY = "C06"
 PYTEST_PREFIX = "C06/"
+TECHNIQUE = "runtime monitoring: contract monitor on every rate() return + online history monitor over fed-back leagues"
 LEVEL = "exploration"
 RULE = ("(i) single games over the full configuration box (per-call and model-level tau incl. 0 and limit_sigma, kappa "
         "up to 1e-2 with beta scaled down so the TM draw margin t=kappa/c is large, gamma>=0 callbacks incl. 0 and 3, "
